@@ -5,8 +5,9 @@ func init() {
 		Rules: []Rule{
 			r("D1", RuleD1), r("D2", RuleD2), r("D3", RuleD3), r("D4", RuleD4), r("G2", RuleG2), r("OP1", RuleOP1),
 			r("AL1", RuleAL1),
+			r("FP1", RuleFP1),
 		},
-		Explanation: "Sufficient condition for determinism of the library's own code, decided over every function: an option value shares no map/slice/pointer with the cores it is applied to, so processing one project cannot change the verdict on another (OP1); no order-sensitive map range (D1), no clock/random/environment/goroutine/address source (D2), constant generator seeds (D3), ordered collections serialise in insertion order (D4), no package-level state written after initialisation (G2). Given a deterministic trusted base, a Go program with these properties is a function of its inputs. No function writes through a byte-slice parameter - the source bytes stay as read, so a second run over the same bytes sees the same document (AL1).",
+		Explanation: "Sufficient condition for determinism of the library's own code, decided over every function: an option value shares no map/slice/pointer with the cores it is applied to, so processing one project cannot change the verdict on another (OP1); no order-sensitive map range (D1), no clock/random/environment/goroutine/address source (D2), constant generator seeds (D3), ordered collections serialise in insertion order (D4), no package-level state written after initialisation (G2). Given a deterministic trusted base, a Go program with these properties is a function of its inputs. No function writes through a byte-slice parameter - the source bytes stay as read, so a second run over the same bytes sees the same document (AL1). No formatting call prints a pointer as its address (FP1), and a slice filled in map order is sorted by a total order on its elements - a less function through a lossy key leaves ties in map order (D1).",
 		Trusted:     trustedCommon,
 		Assume:      []string{"the schema library and lucasjones/reggen are deterministic for a fixed seed"},
 	})
